@@ -14,7 +14,8 @@ EXPLANATION = ("SYMMETRY between the record writers and readers of node/blocksto
                "hash == *expected_hash; every exception handler of the readers returns failure. PROVENANCE/MPT: the CBlockIndex overload passes the "
                "index's hash and position; ConnectTip/DisconnectTip read through that overload for the very index they (dis)connect; DisconnectBlock "
                "uses undo data only past a successful ReadBlockUndo; ConnectBlock re-checks the merkle root when really connecting and reports a "
-               "mutated block through FatalError before any effect.")
+               "mutated block through FatalError before any effect. VALUE-FLOW: the recorded used size of a blk/rev file (CBlockFileInfo::nSize/nUndoSize, writer "
+               "table frozen through the call graph) is never lowered and the position handed out for a new record is the size before it is advanced.")
 ASSUMPTIONS = ["Serialize/Unserialize of CBlock, CBlockUndo, uint256 are mutually inverse (C48)", "HashWriter/HashVerifier hash exactly the bytes streamed through them",
                "MessageStartChars is 4 bytes (std::array<uint8_t,4>)"]
 CLAIM = dict(
@@ -295,6 +296,65 @@ def block_records(ctx, P):
            ok, rb2.where, detail)
 
 
+def file_size_bookkeeping(ctx, P):
+    """The recorded used size of a blk/rev file is where the next record is appended: it must never move backwards, and the position
+    handed out for a new record is the old size."""
+    from sa.engine import callgraph
+    from sa.rules._helpers_B import alias_naming
+    cg = callgraph.load_all()
+    table = {"kernel::CBlockFileInfo::nSize": {BM + "FindNextBlockPos", BM + "UpdateBlockInfo"},
+             "kernel::CBlockFileInfo::nUndoSize": {BM + "FindUndoPos"}}
+    for fld, allowed in table.items():
+        ws = {w[0] for w in cg.writers(fld)}
+        ctor = {w for w in ws if w.rsplit("::", 1)[-1] == "CBlockFileInfo"}
+        ok = bool(ws - ctor) and (ws - ctor) <= allowed
+        ctx.ob("who-writes/%s" % fld.rsplit("::", 1)[-1], "WHO-MAY-WRITE", "%s is written (outside its default initialiser) only by %s" % (fld, ", ".join(sorted(allowed))),
+               ok, None, {"writers": sorted(ws)})
+        short = fld.rsplit("::", 1)[-1]
+        for q in sorted(allowed):
+            f = ctx.used(P.fn(q))
+            sub = alias_naming(f, P)
+            is_w = lambda e, fld=fld: is_expr(e) and ((e[0] == "b" and e[1] in ASSIGN_OPS) or (e[0] == "u" and e[1] in ("++", "--", "post++", "post--"))) \
+                and is_expr(e[2]) and e[2][0] == "." and e[2][2] == fld
+            ss = sites(f, is_w, P)
+            ctx.floor("%s writes of %s" % (q, short), len(ss), 1)
+            for s_ in ss:
+                e = s_.expr
+                tgt = F.key(F.expand(e[2], sub))
+                shape, ok = "other", False
+                if e[0] == "b" and e[1] == "+=":
+                    neg = [x for x in subexprs(e[3]) if (x[0] == "b" and x[1] == "-") or (x[0] == "u" and x[1] == "-") or (x[0] == "int" and isinstance(x[1], int) and x[1] < 0)]
+                    ty = _ptype(f, e[3][1]) if e[3][0] == "param" else ((_local_decl(f, e[3][1]) or {}).get("ty") or "") if e[3][0] == "local" else ""
+                    shape, ok = "old + added", not neg and (e[3][0] not in ("param", "local") or "unsigned" in ty or "uint" in ty or "size_t" in ty)
+                elif e[0] == "b" and e[1] == "=":
+                    v = F.expand(e[3], sub)
+                    if is_expr(v) and v[0] == "call" and v[1] == "std::max" and len(call_args(v)) == 2 and any(F.key(x) == tgt for x in call_args(v)):
+                        shape, ok = "max(end of record, old)", True
+                    else:
+                        # `if (old < end) old = end;`
+                        gs = [g for g in s_.guards if g.kind == "if"][-1:]
+                        gf = F.mk_and([g.formula(sub) for g in gs])
+                        want = F.to_formula(["b", "<", e[2], e[3]], sub)
+                        if gs and F.implies(gf, want):
+                            shape, ok = "raised under `old < new`", True
+                ctx.ob("%s/%s-never-lowered@L%s" % (q.rsplit("::", 1)[-1], short, s_.line), "VALUE-FLOW",
+                       "the recorded used size %s of a block/undo file is never lowered: it is `old + added`, `max(end of this record, old)` or raised under `old < new` "
+                       "(a smaller value would let the next record overwrite stored ones)" % short, ok, s_.where, {"shape": shape, "value": show(e[3]) if len(e) > 3 else show(e)})
+    # the position handed out for a new record is the size before it is bumped
+    for q, fld in ((BM + "FindNextBlockPos", "kernel::CBlockFileInfo::nSize"), (BM + "FindUndoPos", "kernel::CBlockFileInfo::nUndoSize")):
+        f = P.fn(q)
+        taken = lambda e, fld=fld: is_expr(e) and e[0] == "b" and e[1] == "=" and match([".", ANY, "FlatFilePos::nPos"], e[2]) and match([".", ANY, fld], e[3])
+        bump = lambda e, fld=fld: is_expr(e) and e[0] == "b" and e[1] in ("+=", "=") and match([".", ANY, fld], e[2])
+        must_before(ctx, f, P, [("POSITION", taken)], [("position-before-bump", bump, ["POSITION"],
+                                                        "the position returned for the new record is read from the recorded size before that size is advanced")],
+                    q.rsplit("::", 1)[-1])
+        for s_ in sites(f, taken, P):
+            bs = sites(f, bump, P)
+            ok = bool(bs) and all(show(b_.expr[2][1]) == show(s_.expr[3][1]) for b_ in bs)
+            ctx.ob("%s/position-same-file@L%s" % (q.rsplit("::", 1)[-1], s_.line), "PROVENANCE", "the size read for the position and the size advanced belong to the same file entry",
+                   ok, s_.where)
+
+
 def consumers(ctx, P):
     ct = ctx.used(P.fn("Chainstate::ConnectTip"))
     dt = ctx.used(P.fn("Chainstate::DisconnectTip"))
@@ -348,4 +408,5 @@ def check(ctx):
     P = ctx.program(UNITS)
     undo_records(ctx, P)
     block_records(ctx, P)
+    file_size_bookkeeping(ctx, P)
     consumers(ctx, P)
